@@ -53,6 +53,7 @@ def explore(mod, tier: str) -> int:
         agg["cases"] = agg.get("cases", 0) + out.get("cases", 1)
         if out.get("sample") is not None and len(agg["samples"]) < 4:
             agg["samples"].append(out["sample"])
+        agg.setdefault("unconfirmed", set()).update(out.get("unconfirmed", ()))
         for sig, msg in out["problems"]:
             if outcome.findings.is_known(sig):
                 continue
@@ -81,6 +82,7 @@ def explore(mod, tier: str) -> int:
             unreproducible.append(sig)
             continue
         outcome.violation(sig, path, msg)
+    unreproducible += sorted(agg.get("unconfirmed", ()))
     if unreproducible:
         import sys
         print(f"{mod.PROP}: {len(unreproducible)} violation signature(s) were seen in worker processes but none of their "
